@@ -265,6 +265,10 @@ def generate(seed, tier):
                     'kind': r.choice(['live', 'live', 'foreign', 'dead']), 'hard': r.random() < 0.4, 'pick': r.randrange(1000),
                     'seed': r.randrange(2 ** 31)})
     ops.sort(key=lambda x: x['t'])
+    if r.random() < 0.2:
+        # an authenticated peer that sends malformed protected messages: whatever it provokes, the table stays exact
+        sc['byz'] = {'kind': 'auth_malformed', 'seed': r.randrange(2 ** 31)}
+        sc['meta']['byz'] = 'auth_malformed'
     return sc
 
 
@@ -279,6 +283,14 @@ def run(scenario):
         # "an IKE_SA that ends is removed together with its kernel SAs": nothing installed may be left without an owner in the table
         from sim.monitors import LedgerInvariant
         ctx['ledger'] = LedgerInvariant(w, PROP)
+        if scenario.get('byz'):
+            from sim import byz
+            from sim.interpose import Interposer
+            from sim.wiretap import Wiretap
+            tap = ctx['tap'] = Wiretap(w, check_reencode=False)
+            ip = ctx['ip'] = Interposer(w, tap)
+            rule, _ = byz.make(scenario['byz']['kind'], scenario['byz']['seed'], w, ip, tap, orc.reach)
+            ip.rules.append(rule)
         dead_spis = ctx['dead'] = []
 
         def spiforge(w, op):
